@@ -300,6 +300,25 @@ def _check_written(case):
         site.cleanup(d)
 
 
+def _dollar_cases(tier, seed):
+    yield {'lines': [('os', 'py:module', 'library/os.html#module-$'), ('os.path.join', 'py:function', 'library/os.path.html#$'), ('json', 'py:module', 'library/json.html#module-$'),
+                     ('plain', 'py:class', 'api/plain.html'), ('dollar.mid', 'py:function', 'a$b.html#x'), ('ends', 'py:data', 'x.html#prefix-$'), ('just', 'py:data', '$')]}
+
+
+def _check_dollar(case):
+    """in a location a trailing '$' stands for the name of the entry (Sphinx's inventory format), whatever precedes it"""
+    inv, log = _inv()
+    payload = ''.join(f'{n} {t} 1 {loc} -\n' for n, t, loc in case['lines'])
+    inv._links = inv._parseInventory('http://base', payload)
+    fails = []
+    for n, t, loc in case['lines']:
+        want = 'http://base/' + (loc[:-1] + n if loc.endswith('$') else loc)
+        got = inv.getLink(n)
+        if got != want:
+            fails.append({'observed': f'{n} ({loc}) resolves to {got!r}', 'required': f'{want!r}', 'class': 'dollar-shorthand'})
+    return fails or None
+
+
 def _axiom_cases(tier, seed):
     yield {'all': True}
 
@@ -328,6 +347,8 @@ HARNESS = {
         'covers': ['pydoctor/themes/base/attribute-child.html', 'pydoctor/themes/base/function-child.html', 'pydoctor/model.py:Documentable.url'],
         'bound': 'real runs of two projects (project B under 2 (8) privacy rule lists; a package with a same-named module and class): every entry of the '
                  'written objects.inv followed into the written HTML'},
+    f'{F}:SphinxInventory.getLink': {'cases': _dollar_cases, 'check': _check_dollar,
+        'bound': "7 entries using the '$' shorthand after '#', after 'module-', alone, in the middle, not at all"},
     'axioms': {'cases': _axiom_cases, 'check': _check_axioms,
         'bound': 'every axiom instantiated with all strings of length <= 3 over {a, space, 1, -, p, _}'},
 }
